@@ -29,9 +29,27 @@ import (
 	"mltwist/verifh/prog"
 )
 
+// Discard, when set, makes Capture send the output to /dev/null instead of
+// collecting it (for checks whose oracle does not read the screen text).
+var Discard bool
+
+var devNull *os.File
+
 // Capture runs f with os.Stdout redirected and returns what was written.
 func Capture(f func()) string {
 	old := os.Stdout
+	if Discard {
+		if devNull == nil {
+			var err error
+			if devNull, err = os.OpenFile(os.DevNull, os.O_WRONLY, 0); err != nil {
+				panic(err)
+			}
+		}
+		os.Stdout = devNull
+		defer func() { os.Stdout = old }()
+		f()
+		return ""
+	}
 	r, w, err := os.Pipe()
 	if err != nil {
 		panic(err)
